@@ -130,3 +130,74 @@ def print_target(call):
                 return "stdout"
             return "other"
     return "stdout"
+
+
+def enclosing_top_function(node):
+    """outermost def (function or method) containing the node; nested defs / lambdas belong to it"""
+    top = None
+    n = getattr(node, "_parent", None)
+    while n is not None:
+        if isinstance(n, (ast.FunctionDef, ast.AsyncFunctionDef)):
+            top = n
+        n = getattr(n, "_parent", None)
+    return top
+
+
+def _qual_of(module, fnode):
+    p = getattr(fnode, "_parent", None)
+    if isinstance(p, ast.ClassDef):
+        return "%s.%s.%s" % (module.name, p.name, fnode.name)
+    return "%s.%s" % (module.name, fnode.name)
+
+
+def call_graph(prog):
+    """Over-approximate, name-based may-call graph {function qual: set(function quals)}.
+    Edges: a resolved reference (call or plain mention - callbacks) to a module-level function or class (-> every method
+    of the class: an instance may have any of them invoked later); an attribute call / mention x.name -> every method
+    or module-level function called `name` anywhere in the program.  Code of nested functions belongs to the enclosing
+    top-level def; module-level code belongs to '<module>'."""
+    funcs = {}
+    by_name = {}
+    classes = {}
+    for m in prog.modules.values():
+        for f in m.all_functions():
+            funcs[f.qual] = f
+            by_name.setdefault(f.name, set()).add(f.qual)
+        for c in m.classes.values():
+            classes[c.qual] = c
+    graph = {q: set() for q in funcs}
+    for m in prog.modules.values():
+        graph[m.name + ".<module>"] = set()
+        am = alias_map(m)
+        for node in ast.walk(m.tree):
+            if not isinstance(node, (ast.Name, ast.Attribute)) or not isinstance(getattr(node, "ctx", None), ast.Load):
+                continue
+            top = enclosing_top_function(node)
+            src = _qual_of(m, top) if top is not None else m.name + ".<module>"
+            if src not in graph:
+                graph[src] = set()
+            targets = set()
+            d = dotted(node)
+            if d:
+                head = d.split(".")[0]
+                full = (am[head] + d[len(head):]) if head in am else (m.name + "." + d)
+                if full in funcs:
+                    targets.add(full)
+                if full in classes:
+                    targets.update(x.qual for x in classes[full].methods.values())
+            if isinstance(node, ast.Attribute):
+                targets.update(by_name.get(node.attr, ()))
+            graph[src].update(targets)
+    return graph
+
+
+def reachable(graph, roots):
+    seen = set()
+    stack = [r for r in roots if r in graph]
+    while stack:
+        q = stack.pop()
+        if q in seen:
+            continue
+        seen.add(q)
+        stack.extend(graph.get(q, ()))
+    return seen
